@@ -798,11 +798,16 @@ def check_long_history(case, stats):
     parser, matcher = gh.Parser(), gh.TokenMatcher(case["default"])
     stats.case((case["start"], k, case["default"], case["files"]), True, sample=case)
     keep = None
+    # the matcher's own dialect comes round again and again, WITHOUT a header (the configured default is in force)
+    order = [x for i, d in enumerate(order) for x in ([d, case["default"]] if i % 3 == 2 else [d])]
     for i, d in enumerate(order):
         D = DIALECTS[d]
-        text = "# language: %s\n%s: f%d\n %s: s\n  %sx\n  %sy\n" % (d, D["feature"][0], i, D["scenario"][-1], D["given"][-1], D["then"][-1])
-        if d == "en" and i % 2:
-            text = text.split("\n", 1)[1] if case["default"] == "en" else text
+        # where the dialect has step keywords without a trailing blank, use one (text glued to the keyword, no blank in the whole line)
+        glued = [k_ for c_ in ("given", "when", "then", "and", "but") for k_ in D[c_] if not k_.endswith(" ")]
+        k1 = glued[i % len(glued)] if glued else D["given"][-1]
+        text = "# language: %s\n%s: f%d\n %s: s\n  %sx\n  %sy\n" % (d, D["feature"][0], i, D["scenario"][-1], k1, D["then"][-1])
+        if d == case["default"] and (d != "en" or i % 2):
+            text = text.split("\n", 1)[1]
         want = fresh(text, case["default"], False)
         if case["files"]:
             path = "hist-%d-%d.feature" % (os.getpid(), i)
@@ -824,7 +829,8 @@ def check_long_history(case, stats):
 def unit_long_history(a):
     stats = Stats()
     sweep(stats, [{"sub": "long-history", "start": st_, "dialects": k, "default": dflt, "files": files}
-                  for st_ in (0, 30) for k in (8, 16, 17, 18, 33, 40) for dflt in ("en", "fr") for files in (False, True)], check_long_history)
+                  for st_ in (0, 30) for k in (8, 16, 17, 18, 33, 40) for dflt in ("en", "fr") for files in (False, True)] +
+          [{"sub": "long-history", "start": 5, "dialects": 9, "default": dflt, "files": False} for dflt in ("ja", "zh-CN", "zh-TW", "ro", "ml", "mr", "em", "fr", "ko", "th")], check_long_history)
     return stats
 
 
